@@ -944,7 +944,7 @@ class WaveSpectrum(DatasetWrapper):
         extrapolation_value: float = 0.0,
     ):
         dataset = self.__class__(
-            xarray.Dataset(interpolate_dataset_grid(coordinates, self.dataset))
+            interpolate_dataset_grid(coordinates, self.dataset)
         )
         dataset.fillna(extrapolation_value)
         return dataset
